@@ -84,6 +84,9 @@ type enc struct {
 	rootFC      *FuncContract
 	safetyProps []string
 	entryState  *State
+	wfree       bool     // a writes clause is in force for this unit
+	writeRefs   []Term   // pre-existing objects that may be written
+	writeProps  []string
 	closed      map[string]bool
 	defText     map[string]string
 	ghostEntry  map[string]Term
@@ -126,7 +129,107 @@ func (e *enc) assume(t Term) {
 
 func (e *enc) note(s string) { e.notes[s] = true }
 
+// splitConj splits a goal into conjuncts: (and a b), (=> h (and a b)) (one
+// solver query per conjunct discharges far more reliably than one big goal).
+func splitConj(goal Term) []Term {
+	parts := sexprArgs(goal)
+	if len(parts) >= 2 && parts[0] == "and" {
+		var out []Term
+		for _, p := range parts[1:] {
+			out = append(out, splitConj(p)...)
+		}
+		return out
+	}
+	if len(parts) == 3 && parts[0] == "=>" {
+		sub := splitConj(parts[2])
+		if len(sub) > 1 {
+			var out []Term
+			for _, s := range sub {
+				out = append(out, "(=> "+parts[1]+" "+s+")")
+			}
+			return out
+		}
+	}
+	return []Term{goal}
+}
+
+// sexprArgs returns the top-level elements of a parenthesised term (head first), or nil for atoms.
+func sexprArgs(t Term) []string {
+	t = strings.TrimSpace(t)
+	if len(t) < 2 || t[0] != '(' || t[len(t)-1] != ')' {
+		return nil
+	}
+	body := t[1 : len(t)-1]
+	var out []string
+	depth := 0
+	start := -1
+	inBar, inStr := false, false
+	for i := 0; i < len(body); i++ {
+		c := body[i]
+		switch {
+		case inBar:
+			if c == '|' {
+				inBar = false
+			}
+			continue
+		case inStr:
+			if c == '"' {
+				inStr = false
+			}
+			continue
+		}
+		switch c {
+		case '|':
+			inBar = true
+			if start < 0 {
+				start = i
+			}
+		case '"':
+			inStr = true
+			if start < 0 {
+				start = i
+			}
+		case '(':
+			if start < 0 {
+				start = i
+			}
+			depth++
+		case ')':
+			depth--
+		case ' ', '\n', '\t':
+			if depth == 0 && start >= 0 {
+				out = append(out, body[start:i])
+				start = -1
+			}
+		default:
+			if start < 0 {
+				start = i
+			}
+		}
+	}
+	if start >= 0 {
+		out = append(out, body[start:])
+	}
+	return out
+}
+
 func (e *enc) oblig(kind, name string, props []string, hyp, goal Term, pos, text string) *Oblig {
+	if kind != "vacuity" && kind != "binding" {
+		if parts := splitConj(goal); len(parts) > 1 {
+			var first *Oblig
+			for i, p := range parts {
+				o := e.oblig1(kind, fmt.Sprintf("%s/%d", name, i+1), props, hyp, p, pos, text)
+				if first == nil {
+					first = o
+				}
+			}
+			return first
+		}
+	}
+	return e.oblig1(kind, name, props, hyp, goal, pos, text)
+}
+
+func (e *enc) oblig1(kind, name string, props []string, hyp, goal Term, pos, text string) *Oblig {
 	full := e.unitName + "#" + name
 	e.names[full]++
 	if c := e.names[full]; c > 1 {
